@@ -1,0 +1,58 @@
+//go:build verif
+
+package rtree
+
+import "fmt"
+
+// VerifCheck reports violations of the internal structural invariants of a
+// bulk-loaded tree that searches cannot reveal directly: every parent box is
+// the exact bound of its child, every node has 1..maxEntries entries, a node
+// does not mix leaf and branch entries, and the number of leaf entries equals
+// Count. Only built with the verif tag.
+func (t *RTree) VerifCheck() error {
+	if t.root == nil {
+		if t.count != 0 {
+			return fmt.Errorf("nil root but count=%d", t.count)
+		}
+		return nil
+	}
+	leaves := 0
+	var walk func(n *node, depth int) error
+	walk = func(n *node, depth int) error {
+		if n.numEntries < 1 || n.numEntries > maxEntries {
+			return fmt.Errorf("node at depth %d has %d entries", depth, n.numEntries)
+		}
+		nLeaf, nBranch := 0, 0
+		for i := 0; i < n.numEntries; i++ {
+			e := n.entries[i]
+			if e.box.MinX > e.box.MaxX || e.box.MinY > e.box.MaxY {
+				return fmt.Errorf("inverted box %v at depth %d", e.box, depth)
+			}
+			if e.child == nil {
+				nLeaf++
+				continue
+			}
+			nBranch++
+			if got := calculateBound(e.child); got != e.box {
+				return fmt.Errorf("parent box %v is not the exact bound %v of its child (depth %d)", e.box, got, depth)
+			}
+			if err := walk(e.child, depth+1); err != nil {
+				return err
+			}
+		}
+		if nLeaf > 0 && nBranch > 0 {
+			return fmt.Errorf("node at depth %d mixes %d leaf and %d branch entries", depth, nLeaf, nBranch)
+		}
+		if nLeaf > 0 {
+			leaves += nLeaf
+		}
+		return nil
+	}
+	if err := walk(t.root, 0); err != nil {
+		return err
+	}
+	if leaves != t.count {
+		return fmt.Errorf("leaf entries %d != Count %d", leaves, t.count)
+	}
+	return nil
+}
